@@ -97,7 +97,8 @@ def judge_matches(smiles, pats):
             got = bool(f.pattern_match(m, a.GetIdx(), p)[0])
             want = a.GetIdx() in occ
             if got != want:
-                out.append((has_ring(p) or has_ring(m), "%s: pattern %s (%s of '%s') at atom %d (%s): matcher says %r, RDKit substructure search says %r"
+                # known mechanism: over-matching only (a ring-closing bond that is never checked, an acyclic pattern wrapped around a small ring)
+                out.append(((has_ring(p) or has_ring(m)) and got and not want, "%s: pattern %s (%s of '%s') at atom %d (%s): matcher says %r, RDKit substructure search says %r"
                             % (smiles, chem.canon(__import__('rdkit').Chem.MolToSmiles(p)), kind, name, a.GetIdx(), a.GetSymbol(), got, want)))
     return out
 
